@@ -196,6 +196,32 @@ def compile_probe(args):
     return idx, r.returncode, codes, msgs
 
 
+def iterator_probes():
+    """Negative direction only: the cache's contents must not become reachable from
+    another thread through an iterator when the cache itself could not be shared
+    (borrowing iterators hold &K / &V: sending or sharing one needs K, V: Sync;
+    draining / owning iterators hold &mut LruCache / LruCache). Whether an
+    iterator is Send / Sync at all is not demanded."""
+    out = []
+    use = "use lru_mem::{Drain, IntoIter, IntoKeys, IntoValues, Iter, Keys, Values};\n"
+    for ty in ("Iter", "Keys", "Values"):
+        for trait in ("Send", "Sync"):
+            for witness in ("SendOnly", "Neither"):
+                for pos in range(2):
+                    params = ["Both", "Both"]
+                    params[pos] = witness
+                    body = use + "pub fn probe() { assert_%s::<%s<'static, %s>>(); }\n" % (trait.lower(), ty, ", ".join(params))
+                    out.append({"name": "iterator/%s/%s/%s@%d" % (ty, trait, witness, pos), "src": PRELUDE + body, "expect": "reject", "codes": ["E0277"], "group": "iterator"})
+    for ty, lt in (("Drain", "'static, "), ("IntoIter", ""), ("IntoKeys", ""), ("IntoValues", "")):
+        for trait, witness in (("Send", "SyncOnly"), ("Sync", "SendOnly"), ("Send", "Neither"), ("Sync", "Neither")):
+            for pos in range(3):
+                params = ["Both", "Both", "Both"]
+                params[pos] = witness
+                body = use + "pub fn probe() { assert_%s::<%s<%s%s>>(); }\n" % (trait.lower(), ty, lt, ", ".join(params))
+                out.append({"name": "iterator/%s/%s/%s@%d" % (ty, trait, witness, pos), "src": PRELUDE + body, "expect": "reject", "codes": ["E0277"], "group": "iterator"})
+    return out
+
+
 def main():
     args = sys.argv[1:]
     opt = {}
@@ -213,7 +239,7 @@ def main():
     if rlib is None:
         sys.stderr.write("MACHINERY ERROR: could not build lru-mem for the probes\n")
         return 2
-    probes = lattice_probes() + generic_probes() + borrow_probes()
+    probes = lattice_probes() + generic_probes() + borrow_probes() + iterator_probes()
     if "replay" in opt:
         want = json.load(open(opt["replay"])).get("probe")
         probes = [p for p in probes if p["name"] == want]
@@ -272,7 +298,7 @@ def main():
             "coverage": {
                 "evaluations": len(probes),
                 "distinct_nontrivial": distinct_reject,
-                "rule": "programs = {Send+Sync, Send-only, Sync-only, neither}^3 x {Send, Sync} (complete lattice) + generic bound probes + (17 reference/iterator-returning API expressions) x (7 conflicting uses + 3 conflict-free twins); non-trivial = programs that must be REJECTED with a specific error code (each is a distinct program)",
+                "rule": "programs = {Send+Sync, Send-only, Sync-only, neither}^3 x {Send, Sync} (complete lattice) + generic bound probes + (7 iterator types x {Send, Sync} x a witness lacking the needed trait in each position: must be rejected) + (17 reference/iterator-returning API expressions) x (7 conflicting uses + 3 conflict-free twins); non-trivial = programs that must be REJECTED with a specific error code (each is a distinct program)",
                 "samples": samples,
                 "exhaustive": True,
                 "groups": groups,
